@@ -165,9 +165,9 @@ def totality_documents():
                 f'<div style="float:{side};width:{w2}px;height:10px">a</div><p>b c d</p></div>')
         yield f'tot-float-h{h1}-w{w1}-w{w2}-{side}', page(body, 200, 100)
     # auto tables whose columns are all constrained and empty / zero
-    for width, cells, cw, pad in itertools.product((0, 80, 200), (1, 2, 3), (0, 10), (0, 2)):
-        tds = ''.join(f'<td style="width:{cw}px;padding:{pad}px"></td>' for _ in range(cells))
-        yield (f'tot-table-W{width}-n{cells}-c{cw}-p{pad}',
+    for width, cells, cw, pad, border in itertools.product((0, 80, 200), (1, 2, 3), (0, 10), (0, 2), (0, 1)):
+        tds = ''.join(f'<td style="width:{cw}px;padding:{pad}px;border-width:{border}px"></td>' for _ in range(cells))
+        yield (f'tot-table-W{width}-n{cells}-c{cw}-p{pad}-b{border}',
                page(f'<table style="width:{width}px;border-spacing:0"><tr>{tds}</tr></table><p>x</p>', 200, 100))
     # short paragraphs at the top of tiny pages with large orphans / widows
     for lines, orphans, widows, height in itertools.product((1, 2, 3, 5), (1, 2, 4), (1, 2, 4), (8, 15, 25)):
